@@ -33,42 +33,43 @@ Record ctx := mkctx {
   g_nest : N;                      (* number of _parse_schema frames currently active (true nesting) *)
   g_peak_nest : N;                 (* maximum of g_nest so far *)
   g_peak : N;                      (* maximum of recursion_depth so far *)
-  g_fell : list str                (* names reset to NOT_STARTED by the RETURN_EXISTING fall-through *)
+  g_fell : list str;               (* names reset to NOT_STARTED by the RETURN_EXISTING fall-through *)
+  g_entered : list str             (* every name unified_enter_schema was called with, in order *)
 }.
 
 Definition init (md : N) : ctx :=
-  mkctx [] [] [] 0 [] [] false md false 0 0 0 [].
+  mkctx [] [] [] 0 [] [] false md false 0 0 0 [] [].
 
 Definition set_stack (c : ctx) (v : list str) : ctx :=
   mkctx v (states c) (parsed c) (depth c) (cycles c) (exceeded c) (flag c) (max_depth c) (allow_self c)
-        (g_nest c) (g_peak_nest c) (g_peak c) (g_fell c).
+        (g_nest c) (g_peak_nest c) (g_peak c) (g_fell c) (g_entered c).
 Definition set_states (c : ctx) (v : list (str * sstate)) : ctx :=
   mkctx (stack c) v (parsed c) (depth c) (cycles c) (exceeded c) (flag c) (max_depth c) (allow_self c)
-        (g_nest c) (g_peak_nest c) (g_peak c) (g_fell c).
+        (g_nest c) (g_peak_nest c) (g_peak c) (g_fell c) (g_entered c).
 Definition set_parsed (c : ctx) (v : list str) : ctx :=
   mkctx (stack c) (states c) v (depth c) (cycles c) (exceeded c) (flag c) (max_depth c) (allow_self c)
-        (g_nest c) (g_peak_nest c) (g_peak c) (g_fell c).
+        (g_nest c) (g_peak_nest c) (g_peak c) (g_fell c) (g_entered c).
 Definition set_depth (c : ctx) (v : N) : ctx :=
   mkctx (stack c) (states c) (parsed c) v (cycles c) (exceeded c) (flag c) (max_depth c) (allow_self c)
-        (g_nest c) (g_peak_nest c) (N.max (g_peak c) v) (g_fell c).
+        (g_nest c) (g_peak_nest c) (N.max (g_peak c) v) (g_fell c) (g_entered c).
 Definition set_cycles (c : ctx) (v : list (list str)) : ctx :=
   mkctx (stack c) (states c) (parsed c) (depth c) v (exceeded c) (flag c) (max_depth c) (allow_self c)
-        (g_nest c) (g_peak_nest c) (g_peak c) (g_fell c).
+        (g_nest c) (g_peak_nest c) (g_peak c) (g_fell c) (g_entered c).
 Definition set_exceeded (c : ctx) (v : list str) : ctx :=
   mkctx (stack c) (states c) (parsed c) (depth c) (cycles c) v (flag c) (max_depth c) (allow_self c)
-        (g_nest c) (g_peak_nest c) (g_peak c) (g_fell c).
+        (g_nest c) (g_peak_nest c) (g_peak c) (g_fell c) (g_entered c).
 Definition set_flag (c : ctx) (v : bool) : ctx :=
   mkctx (stack c) (states c) (parsed c) (depth c) (cycles c) (exceeded c) v (max_depth c) (allow_self c)
-        (g_nest c) (g_peak_nest c) (g_peak c) (g_fell c).
+        (g_nest c) (g_peak_nest c) (g_peak c) (g_fell c) (g_entered c).
 Definition set_allow (c : ctx) (v : bool) : ctx :=
   mkctx (stack c) (states c) (parsed c) (depth c) (cycles c) (exceeded c) (flag c) (max_depth c) v
-        (g_nest c) (g_peak_nest c) (g_peak c) (g_fell c).
+        (g_nest c) (g_peak_nest c) (g_peak c) (g_fell c) (g_entered c).
 Definition set_nest (c : ctx) (v : N) : ctx :=
   mkctx (stack c) (states c) (parsed c) (depth c) (cycles c) (exceeded c) (flag c) (max_depth c) (allow_self c)
-        v (N.max (g_peak_nest c) v) (g_peak c) (g_fell c).
+        v (N.max (g_peak_nest c) v) (g_peak c) (g_fell c) (g_entered c).
 Definition add_fell (c : ctx) (n : str) : ctx :=
   mkctx (stack c) (states c) (parsed c) (depth c) (cycles c) (exceeded c) (flag c) (max_depth c) (allow_self c)
-        (g_nest c) (g_peak_nest c) (g_peak c) (g_fell c ++ [n]).
+        (g_nest c) (g_peak_nest c) (g_peak c) (g_fell c ++ [n]) (g_entered c).
 
 (* ---------- small helpers ---------- *)
 Definition add_key (k : str) (l : list str) : list str := if mem_str k l then l else l ++ [k].
@@ -111,6 +112,34 @@ Definition first_last_eq (path : list str) : bool :=
   end.
 
 (* ---------- unified_cycle_check ---------- *)
+(* branch 3: recursion_depth > max_depth *)
+Definition depth_placeholder (n : str) (c : ctx) : ctx :=
+  let c1 := set_exceeded c (add_key n (exceeded c)) in
+  let c2 := set_state c1 n PhDepth in
+  let c3 := set_flag c2 true in
+  set_parsed c3 (add_key n (parsed c3)).
+
+(* the placeholder storage policy of branch 4 (string heuristics included) *)
+Definition should_store (n : str) (path : list str) : bool :=
+  let direct := is_direct path in
+  let synthetic := truthy (Some n) && (containsb s_syn1 n || containsb s_syn2 n) in
+  let pstr := join s_path_sep path in
+  let arr := containsb s_arr1 pstr && containsb s_arr2 pstr && first_last_eq path in
+  let nested :=
+    existsb (fun x => prefixb n x && negb (str_eqb x n) && negb (suffixb s_item_suffix x)) path
+    && first_last_eq path in
+  synthetic || direct || arr || nested.
+
+(* branch 4: schema_name in schema_stack *)
+Definition cycle_placeholder (n : str) (c : ctx) : ctx :=
+  let path := cycle_path n (stack c) in
+  let c1 := set_flag c true in
+  let selfok := allow_self c && is_direct path in
+  let c2 := if selfok then c1 else set_cycles c1 (cycles c1 ++ [path]) in
+  if should_store n path
+  then set_state (set_parsed c2 (add_key n (parsed c2))) n (if selfok then PhSelf else PhCycle)
+  else c2.
+
 Definition check (name : option str) (c : ctx) : ctx * action :=
   match name with
   | None => (c, AContinue)
@@ -119,30 +148,9 @@ Definition check (name : option str) (c : ctx) : ctx * action :=
     | Completed => (c, AExisting)                               (* 1. *)
     | PhCycle | PhDepth | PhSelf => (c, APlaceholder)           (* 2. *)
     | NotStarted | InProgress =>
-      if max_depth c <? depth c then                            (* 3. recursion_depth > max_depth *)
-        let c1 := set_exceeded c (add_key n (exceeded c)) in
-        let c2 := set_state c1 n PhDepth in
-        let c3 := set_flag c2 true in
-        let c4 := set_parsed c3 (add_key n (parsed c3)) in
-        (c4, ACreate)
-      else if mem_str n (stack c) then                          (* 4. structural cycle *)
-        let path := cycle_path n (stack c) in
-        let direct := is_direct path in
-        let c1 := set_flag c true in
-        let selfok := allow_self c && direct in
-        let c2 := if selfok then c1 else set_cycles c1 (cycles c1 ++ [path]) in
-        let synthetic := truthy name && (containsb s_syn1 n || containsb s_syn2 n) in
-        let pstr := join s_path_sep path in
-        let arr := containsb s_arr1 pstr && containsb s_arr2 pstr && first_last_eq path in
-        let nested :=
-          existsb (fun x => prefixb n x && negb (str_eqb x n) && negb (suffixb s_item_suffix x)) path
-          && first_last_eq path in
-        let store := synthetic || direct || arr || nested in
-        let c3 := if store
-                  then set_state (set_parsed c2 (add_key n (parsed c2))) n (if selfok then PhSelf else PhCycle)
-                  else c2 in
-        (c3, ACreate)
-      else (set_state c n InProgress, AContinue)                (* 5. *)
+      if max_depth c <? depth c then (depth_placeholder n c, ACreate)        (* 3. *)
+      else if mem_str n (stack c) then (cycle_placeholder n c, ACreate)      (* 4. *)
+      else (set_state c n InProgress, AContinue)                             (* 5. *)
     end
   end.
 
@@ -179,7 +187,11 @@ Inductive call :=
 | Reg (k : str)
 | Unreg (k : str).
 
-Definition frame_in (c : ctx) : ctx := set_nest c (g_nest c + 1).
+Definition note_entered (c : ctx) (name : option str) : ctx :=
+  mkctx (stack c) (states c) (parsed c) (depth c) (cycles c) (exceeded c) (flag c) (max_depth c) (allow_self c)
+        (g_nest c) (g_peak_nest c) (g_peak c) (g_fell c)
+        (match name with Some n => g_entered c ++ [n] | None => g_entered c end).
+Definition frame_in (c : ctx) (name : option str) : ctx := note_entered (set_nest c (g_nest c + 1)) name.
 Definition frame_out (c : ctx) : ctx := set_nest c (g_nest c - 1).
 
 Fixpoint run (c : ctx) (t : call) : ctx :=
@@ -189,7 +201,7 @@ Fixpoint run (c : ctx) (t : call) : ctx :=
   | Call name allow body =>
       let run_body := fix run_body (c : ctx) (l : list call) : ctx :=
         match l with [] => c | t :: r => run_body (run c t) r end in
-      let c0 := set_allow (frame_in c) allow in
+      let c0 := set_allow (frame_in c name) allow in
       let (c1, a) := enter name c0 in
       frame_out (
       match a with
@@ -229,7 +241,7 @@ Fixpoint run_acc (c : ctx) (acc : list event) (t : call) {struct t} : ctx * list
   | Reg k => (set_parsed c (add_key k (parsed c)), acc)
   | Unreg k => (set_parsed c (del_key k (parsed c)), acc)
   | Call name allow body =>
-      let c0 := set_allow (frame_in c) allow in
+      let c0 := set_allow (frame_in c name) allow in
       let (c1, a) := enter name c0 in
       let acc1 := log_enter a c1 acc in
       let '(mode, c2, acc2) :=
@@ -274,17 +286,6 @@ Definition restb (c : ctx) : bool := match stack c with [] => true | _ => false 
 
 Definition terminal (s : sstate) : bool :=
   match s with Completed | PhCycle | PhDepth | PhSelf => true | NotStarted | InProgress => false end.
-
-(* names that [t] enters (names of its Call nodes) *)
-Fixpoint entered (t : call) : list str :=
-  match t with
-  | Call name _ body =>
-      (match name with Some n => [n] | None => [] end)
-      ++ (fix go (l : list call) : list str := match l with [] => [] | x :: r => entered x ++ go r end) body
-  | _ => []
-  end.
-Fixpoint entered_list (l : list call) : list str :=
-  match l with [] => [] | x :: r => entered x ++ entered_list r end.
 
 (* true nesting depth of a call tree (number of nested _parse_schema frames) *)
 Fixpoint height (t : call) : N :=
